@@ -19,7 +19,7 @@ import (
 func init() {
 	register(&propDef{
 		ID:          "C15",
-		Explanation: "Equality with single-file generation over all trees, worker counts and schedules is not decided. Decides the structural reasons it is true: R1 every field of the event handler that has a sibling `<field>Mutex` is accessed (outside the constructor) only with that mutex in the must-held set; R2 every path handed to the file writer, os.WriteFile, os.Create or os.Remove in the per-file handler derives from that event's own file name through TrimSuffix+constant suffix or the development text-file name function (no other file is touched); R3 the bytes written are the result of format.Source over the generator's buffer, the hash gating the write is computed over that same value, and the write sits inside the hash test; R4 the handler's error reaches the error channel, every non-fatal error increments the counter, the command's final return is non-nil when the counter is positive, and in the per-file generator the errors of parsing, generation, formatting and both writes reach a return; R5 both directory walks consult skipdir.ShouldSkip for directories and return SkipDir, and ShouldSkip's true-returns are exactly vendor, node_modules, dot- and underscore-prefixed; R6 (VTA call graph) nothing reachable from generator.Generate or the parser's Parse calls time.Now, math/rand or os.Getenv, and the generator does not range over a map; R7 the wait-group Add and the semaphore acquire precede the `go` statement, the worker defers Done and the release, and the post-generation channel is closed only after the wait. R8 a slice field of the handler that per-event methods append to without copying is handed to the constructor without declared spare capacity (no make(…, len, cap>len), no re-slice). R9 every output file is replaced, not overwritten in place: os.WriteFile / os.Create, or os.OpenFile with O_TRUNC (constant-evaluated flags). NOT decided: file-system races with other processes, fsnotify delivery, spare capacity produced by append's own growth.",
+		Explanation: "Equality with single-file generation over all trees, worker counts and schedules is not decided. Decides the structural reasons it is true: R1 every field of the event handler that has a sibling `<field>Mutex` is accessed (outside the constructor) only with that mutex in the must-held set; R2 every path handed to the file writer, os.WriteFile, os.Create or os.Remove in the per-file handler derives from that event's own file name through TrimSuffix+constant suffix or the development text-file name function (no other file is touched); R3 the bytes written are the result of format.Source over the generator's buffer, the hash gating the write is computed over that same value, and the write sits inside the hash test; R4 the handler's error reaches the error channel, every non-fatal error increments the counter, the command's final return is non-nil when the counter is positive, and in the per-file generator the errors of parsing, generation, formatting and both writes reach a return; R5 both directory walks consult skipdir.ShouldSkip for directories and return SkipDir, and ShouldSkip's true-returns are exactly vendor, node_modules, dot- and underscore-prefixed; R6 (VTA call graph) nothing reachable from generator.Generate or the parser's Parse calls time.Now, math/rand or os.Getenv, and the generator does not range over a map; R7 the wait-group Add and the semaphore acquire precede the `go` statement, the worker defers Done and the release, and the post-generation channel is closed only after the wait. R8 a slice field of the handler that per-event methods append to without copying is handed to the constructor without declared spare capacity (no make(…, len, cap>len), no re-slice). R9 every output file is replaced, not overwritten in place: os.WriteFile / os.Create, or os.OpenFile with O_TRUNC (constant-evaluated flags). R10 the lazy-mode `already up to date` test is a strict modification-time comparison. NOT decided: file-system races with other processes, fsnotify delivery, spare capacity produced by append's own growth.",
 		Assumptions: []string{"format.Source is deterministic", "sha256 collisions do not occur"},
 		Trusted:     []string{"go/types", "x/tools go/packages, go/cfg, go/ssa, callgraph/vta"},
 		Run:         runC15,
@@ -29,6 +29,7 @@ func init() {
 func runC15(c *Ctx) {
 	c.load("./cmd/templ/generatecmd", "./cmd/templ/generatecmd/watcher", "./internal/skipdir", "./generator", "./parser/v2")
 	outputFilesReplaced(c, "C15.R9")
+	lazySkipIsStrict(c, "C15.R10")
 	p := c.pkg("cmd/templ/generatecmd")
 	info := p.TypesInfo
 
@@ -950,4 +951,55 @@ func outputFilesReplaced(c *Ctx, rule string) {
 	}
 	c.count("output_file_open_sites", n)
 	c.floor(rule, 2)
+}
+
+// lazySkipIsStrict: the lazy-mode skip ("the Go file is already up to date") compares modification times strictly: the
+// generated file must be NEWER than the template. With coarse or normalised timestamps (1 s granularity, Nix, docker
+// layers, rsync -t) an edited template and its stale output have the same mtime; a non-strict comparison then skips
+// the generation and the stale Go code is what gets compiled.
+func lazySkipIsStrict(c *Ctx, rule string) {
+	p := c.pkg("cmd/templ/generatecmd")
+	info := p.TypesInfo
+	n := 0
+	for _, fd := range allFuncDecls(p) {
+		// a bool function with a time.Time parameter that stats a file
+		if fd.Type.Results == nil || len(fd.Type.Results.List) != 1 || types.ExprString(fd.Type.Results.List[0].Type) != "bool" {
+			continue
+		}
+		hasTime := false
+		for _, prm := range fd.Type.Params.List {
+			if t := info.TypeOf(prm.Type); t != nil && t.String() == "time.Time" {
+				hasTime = true
+			}
+		}
+		if !hasTime {
+			continue
+		}
+		ast.Inspect(fd.Body, func(x ast.Node) bool {
+			ret, ok := x.(*ast.ReturnStmt)
+			if !ok || len(ret.Results) != 1 {
+				return true
+			}
+			e := ast.Unparen(ret.Results[0])
+			if tv, ok := info.Types[e]; ok && tv.Value != nil {
+				return true // return false / true
+			}
+			n++
+			strict := false
+			desc := types.ExprString(e)
+			if call, ok := e.(*ast.CallExpr); ok {
+				if fn := calleeOf(info, call); fn != nil && (fullName(fn) == "time.(Time).After" || fullName(fn) == "time.(Time).Before") {
+					strict = true
+				}
+			}
+			if be, ok := e.(*ast.BinaryExpr); ok && (be.Op == token.GTR || be.Op == token.LSS) {
+				strict = true
+			}
+			c.check(strict, rule, funcKey(p, fd)+"|up-to-date-means-strictly-newer", c.pos(ret.Pos()), "the skip test is a strict time comparison ("+desc+")",
+				fmt.Sprintf("%s decides `up to date` with %s, which is also true for EQUAL modification times: with coarse or normalised timestamps an edited template and its stale _templ.go have the same mtime, generation is skipped (lazy mode) and the old Go code is compiled", fd.Name.Name, desc))
+			return true
+		})
+	}
+	c.count("lazy_skip_tests", n)
+	c.floor(rule, 1)
 }
